@@ -138,7 +138,7 @@ func checkC13(a *checkArgs, r *Result) error {
 	defer dp.Close()
 	r.Rule = "valid streams of all three formats (library-written multi-block xz, multi-chunk LZMA2, classic LZMA in its three end modes, liblzma corpus, multi-stream chains) x generated Read buffer-length schedules (cyclic lists containing 0 and 1, sizes straddling block/chunk boundaries) x source fragmentations (whole, byte-wise, random short reads, data returned together with EOF); oracle: concatenated data equals the content, status EOF, never data after EOF, (0,EOF) stays. Non-trivial: schedule contains a 0 or 1 and fragmentation is not 'whole', or content >= 64 bytes; distinct by (stream, schedule, fragmentation). The Lean side of this property is the layered reader-loop model of Model/ReadLoop.lean (theorems in Props/C13.lean)."
 	rng := rand.New(rand.NewSource(a.seed))
-	nlib, per := 40, 24
+	nlib, per := 60, 48
 	if a.tier == "thorough" {
 		nlib, per = 300, 60
 	}
